@@ -141,6 +141,9 @@ func (its *WiredDatatype) checkOptionAndError(ppp *model.PushPullPack) errors.Or
 		}
 		return errors.ClientSync.New(its.L(), "error response without an error operation")
 	} else if ppp.GetPushPullPackOption().HasSubscribeBit() {
+		if len(ppp.GetOperations()) == 0 {
+			return errors.DatatypeSubscribe.New(its.L(), "subscribe without SnapshotOp")
+		}
 		modelOp := ppp.GetOperations()[0]
 		_, ok := operations.ModelToOperation(modelOp).(*operations.SnapshotOperation)
 		if !ok {
